@@ -9,6 +9,8 @@ import SE.Props.C12
 import SE.Props.C13
 import SE.Props.C14
 import SE.Props.C15
+import SE.Props.C16
+import SE.Proofs.QueueDriver
 import SE.Model.Exporter
 import SE.Driver.Pipe
 import SE.Audit
